@@ -84,7 +84,7 @@ def request_path(
         LogicalSegment(instance, "instance_id"),
     ]
 
-    if attribute:
+    if attribute is not None and attribute != b"":  # attribute 0 is a valid attribute id, only the default means "none"
         segments.append(LogicalSegment(attribute, "attribute_id"))
 
     return PADDED_EPATH.encode(segments, length=True)
